@@ -287,6 +287,18 @@ def directed_histories():
                             {"op": "store", "h": "h2", "v": 2},
                             {"op": "close", "h": "h2"}]
                     out.append(ops)
+    # the destination is opened WITH the sharding option before its metadata exists (convert-chunks
+    # --copy-info, volume-to-precomputed --sharding), the sharded metadata is written, then chunks
+    for scheme in LOCAL:
+        for first in ("absent", "malformed", "noscales"):
+            out.append([{"op": "init", "k": first},
+                        {"op": "open", "h": "h1", "scheme": scheme, "so": "true"},
+                        {"op": "write_info", "k": "sharded"},
+                        {"op": "store", "h": "h1", "v": 1},
+                        {"op": "close", "h": "h1"},
+                        {"op": "open", "h": "h2", "scheme": "path", "so": "unset"},
+                        {"op": "store", "h": "h2", "v": 2},
+                        {"op": "close", "h": "h2"}])
     return out
 
 
